@@ -16,4 +16,9 @@ CHECKS = {
         "note": "Trusted: Lean kernel + bv_decide axioms (listed in evidence); translator tools/rs2lean.py and the BitVec reading of Rust integer operators; correspondence stream c10 covers all three fields, five extensions, representation-level f64 words at the proofs' case-split boundaries, operation chains producing non-canonical intermediates, and termination (3 s watchdog). Three genuine defects found and fixed (f64 double, f64 mul_small, f62 inv hang).",
         "technique": "Lean 4 proof over source-translated kernels (bv_decide + omega + ring) + differential correspondence with winter-math",
     },
+    "C11": {
+        "text": "Theorems about constants regenerated from source on every run: the three moduli are prime (Lucas certificates, kernel-evaluated verified powMod), have the documented two-adicity and bit length; GENERATOR has order p-1; TWO_ADIC_ROOT_OF_UNITY^(2^(s-n)) has exact order 2^n for EVERY n <= s (one lemma over orderOf, not a table); Montgomery constants R2/R3/U; the Frobenius formulas map the basis to its p-th powers in the specification ring. Encodings: for any field whose modulus fits its width, every value < M round-trips with exact consumption, every value >= M is rejected by read/TryFrom/from_random_bytes, truncation is EOF, no panic.",
+        "note": "Trusted: Lean kernel, Mathlib (lucas_primality, orderOf lemmas); translator for the literals; value-level codec model tied by correspondence (stream c11, exhaustive over root orders). Gap: irreducibility of the five extension polynomials and linear extension of the Frobenius statement are not mechanised.",
+        "technique": "Lean 4 proof (Lucas primality certificates, orderOf lemmas, kernel evaluation) + differential correspondence with winter-math",
+    },
 }
